@@ -573,6 +573,37 @@ def transform_histories(tier, rng, rep):
                     xy = np.array(ax.lines[-1].get_xydata())[0]
                     if not np.all(np.abs(xy - want) <= 1e-7 * (1 + np.max(np.abs(want)))):
                         rep.fail("placed_after_the_drawing_transform", f"after {['constructor'] + steps}: point drawn at {xy.tolist()}, the object moved by the maps in that order is at {want.tolist()}", inp); return
+                    if hyp and kind != "klein":
+                        # a segment whose IMAGE under the drawing's transform is straight in the model (a diameter of the disk / a vertical line of the half-plane):
+                        # the straight substitute must join the transformed endpoints
+                        from matplotlib.patches import PathPatch, Arc
+                        if kind == "poincare":
+                            u_ = rng.normal(size=2); u_ /= np.linalg.norm(u_)
+                            ends_m = np.array([0.7 * u_, -0.4 * u_])
+                            ends_k = spec.p2k(ends_m)
+                        else:
+                            x0 = float(rng.uniform(-1.5, 1.5))
+                            ends_m = np.array([[x0, 0.4], [x0, 2.2]])
+                            ends_k = spec.p2k(spec.h2p(ends_m))
+                        pre = (np.linalg.inv(total) @ spec.k2proj(ends_k).T).T
+                        npat = len(ax.patches)
+                        dr.draw_geodesic(h.Segment(h.Point(pre.copy())))
+                        newp = ax.patches[npat:]
+                        if len(newp) != 1:
+                            rep.fail("one_artist_added", f"{len(newp)}", inp); return
+                        if isinstance(newp[0], PathPatch):
+                            pv = np.asarray(newp[0].get_path().vertices, dtype=float)
+                            pv = pv[np.all(np.isfinite(pv), axis=1)]
+                            tol_ = 1e-5 * (1 + np.max(np.abs(ends_m)))
+                            for q_ in pv:
+                                if not _on_chord(q_, ends_m[0], ends_m[1], tol_):
+                                    rep.fail("straight_substitute_on_segment", f"after {['constructor'] + steps}: path vertex {q_.tolist()} of the straight substitute is not on the transformed segment {ends_m.tolist()}", inp); return
+                            if not all(np.min(np.linalg.norm(pv - e_, axis=1)) <= tol_ for e_ in ends_m):
+                                rep.fail("straight_substitute_on_segment", f"after {['constructor'] + steps}: the straight substitute does not reach the transformed endpoints {ends_m.tolist()}", inp); return
+                        elif isinstance(newp[0], Arc):
+                            c_ = np.array(newp[0].center); r_ = newp[0].width / 2
+                            if not all(abs(np.linalg.norm(e_ - c_) - r_) <= 1e-4 * (1 + r_) for e_ in ends_m):
+                                rep.fail("arc_through_endpoints", f"after {['constructor'] + steps}", inp); return
                     if kind == "klein" or not hyp:
                         V = np.array([spec.k2proj(q) for q in k])
                         if hyp:
